@@ -823,6 +823,15 @@ class SeqTheory(BaseTheory):
             return
         raise Untranslatable(f"store {recv!r}[{idx!r}]")
 
+    def local_setitem(self, ex, recv, idx, v):
+        """L[i] = x on a list bound to a local name -> the updated list value"""
+        s = recv.t
+        n = z3.Length(s)
+        _, i = self.py_index(ex, recv.kind, s, idx, "store")
+        p = self.as_pair(ex, v) if recv.kind == "seqP" else v.t
+        self.split_hint(ex, s, i)
+        return Z(recv.kind, self.cat(ex, self.subseq(ex, s, z3.IntVal(0), i), z3.Unit(p), self.subseq(ex, s, i + 1, n)))
+
     def delitem(self, ex, recv, idx):
         if isinstance(recv, ObjV) and recv.role in ("md", "self") and not recv.info.get("view"):
             self.call_method(ex, recv, "__delitem__", [idx], {})
@@ -1281,6 +1290,8 @@ class SeqTheory(BaseTheory):
             return Conc("int" in names)
         if isinstance(v, ObjV) and v.role in ("md", "self"):
             if any(n.endswith("Mapping") for n in names):
+                return Conc(True)
+            if self.program is not None and v.cls in self.program.classes and any(n in self.program.mro(v.cls) for n in names):
                 return Conc(True)
             if names == ["type(self)"] or names == ["<type-of-self>"]:
                 return Z("bool", ex.st.th.get(f"{v.info['oid']}.sametype", z3.BoolVal(True)))
